@@ -517,6 +517,35 @@ func inboundCase(rt *rapid.T, prop string, f inboundFlags) {
 			c.Blackhole(c.OutLen())
 			fc.loseTail++
 		},
+		// the write of the PUBCOMP itself fails (the PUBREL was handled, its
+		// marker is gone, the PUBCOMP stays owed for the next connection);
+		// the identifier is the broker's to use again once it has the PUBCOMP
+		"pubcompWriteFails": func(rt *rapid.T) {
+			c := h.Current()
+			if c == nil || !c.Accepted() || c.Blackholed() || c.WritersParked() > 0 || !h.App.InCall() || !h.ReaderWaiting() {
+				rt.Skip("needs the read routine waiting for input on an accepted connection")
+			}
+			idx := -1
+			for i, o := range c.Owed() {
+				if o.Kind == refmqtt.PUBREL {
+					idx = i
+					break
+				}
+			}
+			if idx < 0 {
+				rt.Skip("no PUBREL owed")
+			}
+			d := rapid.IntRange(0, 3).Draw(rt, "cut")
+			kind := rapid.SampledFrom([]int{sim.WReset, sim.WTimeout}).Draw(rt, "kind")
+			h.Act("pubcompWriteFails: write fault %s at +%d, then the PUBREL", wfaultNames[kind], d)
+			c.ArmWrite(sim.WFault{Off: c.OutLen() + d, Kind: kind})
+			c.Release(idx)
+			h.settleInbound()
+			reconnectBetween++
+			h.Act("appStep")
+			h.appStep("reconnect with the PUBCOMP owed")
+			h.label("pubcomp-write-failed")
+		},
 		"ackWriteFault": func(rt *rapid.T) {
 			c := h.Current()
 			if c == nil {
